@@ -132,6 +132,56 @@ def sparse_sampling(ctx):
                           f"baseline {pf['baseline'].value!r} (truth {P['baseline']!r})", {"input": meta})
 
 
+def corrected_ancillary(ctx):
+    """'the parameters that generated the data' include the fixed ones: a fit with a wrong tip radius followed, on
+    the same object, by a fit with the right one recovers the modulus - for sharp tips too, whose radius (and a
+    correction of it) is a number of the order of 1e-9 ... 1e-8"""
+    from props.c02 import documented
+    from curves import make_indentation
+    rng = ctx.rng
+    mk = "hertz_para"
+    for i, (R, factor) in enumerate([(5e-9, 2.0), (8e-9, 0.5), (2e-8, 1.25), (1e-6, 2.0), (5e-9, 1.5), (1e-8, 0.4)]):
+        truth = fitlib.truth_params(mk, rng, cp=0.0)
+        truth["R"].set(value=R)
+        P = {k: float(truth[k].value) for k in truth}
+        step = 1e-8
+        tip_a = 0.3 * step + step * np.arange(60, -80, -1.0)
+        tip = np.concatenate([tip_a, tip_a[::-1][1:]])
+        segm = np.concatenate([np.zeros(tip_a.size), np.ones(tip_a.size - 1)])
+        force = np.array([documented(mk, -x, P) + P["baseline"] if x < 0 else P["baseline"] for x in tip])
+        idnt = make_indentation(force, tip - force / 0.05, segm, tip=tip)
+
+        def start(radius):
+            p0 = copy.deepcopy(truth)
+            p0["E"].set(value=P["E"] * 1.3, vary=True)
+            p0["contact_point"].set(value=0.5 * step, vary=True)
+            p0["baseline"].set(value=P["baseline"], vary=True)
+            for n_ in p0:
+                if n_ not in ("E", "contact_point", "baseline"):
+                    p0[n_].set(vary=False)
+            p0["R"].set(value=radius)
+            return p0
+        kw = dict(model_key=mk, segment=0, weight_cp=0, range_x=(0, 0), range_type="absolute", method="leastsq")
+        r1, _ = fitlib.fit(idnt, params_initial=start(R * factor), **kw)
+        e1 = idnt.fit_properties["params_fitted"]["E"].value if r1 == "ok" else None
+        r2, _ = fitlib.fit(idnt, params_initial=start(R), **kw)
+        meta = {"stream": "corrected ancillary parameter", "model": mk, "R": R, "first_R": R * factor,
+                "truth": {"E": P["E"]}}
+        ctx.case(meta, nontrivial=json.dumps(meta, sort_keys=True), bucket=["stream=corrected-ancillary"])
+        fp = idnt.fit_properties
+        if r2 != "ok" or not fp.get("success"):
+            ctx.violation("no-success:corrected-ancillary", f"exact {mk} data: the fit with the right radius does not "
+                          f"report success ({r2})", {"input": meta})
+            continue
+        e2 = fp["params_fitted"]["E"].value
+        if abs(e2 - P["E"]) > 1e-3 * P["E"] or fp["params_fitted"]["R"].value != R:
+            ctx.violation("not-recovered:corrected-ancillary", f"exact {mk} data generated with R = {R!r}: after a fit "
+                          f"with R = {R * factor!r} (E = {e1!r}) the fit with R = {R!r} on the same object reports E = "
+                          f"{e2!r} and R = {fp['params_fitted']['R'].value!r} (truth E = {P['E']!r})",
+                          {"input": meta, "history": [f"fit_model(params_initial: R={R * factor!r} fixed)",
+                                                      f"fit_model(params_initial: R={R!r} fixed)"]})
+
+
 def fixed_cp_noise(ctx):
     """tie of Props/C01Noise: with the contact point fixed the fit is a LINEAR least-squares problem in (E, b);
     nanite's fit of noisy data must land on the closed-form least-squares pair, which the Lean model evaluates
@@ -401,6 +451,7 @@ def run(ctx):
     defaults_isolated(ctx)
     fixed_cp_noise(ctx)
     sparse_sampling(ctx)
+    corrected_ancillary(ctx)
     ctx.extra["basin"] = BASIN
 
 
